@@ -14,6 +14,7 @@ import (
 	"testing"
 	"time"
 
+	"github.com/saucelabs/forwarder"
 	"github.com/saucelabs/forwarder/internal/zzverif/explore"
 	"github.com/saucelabs/forwarder/internal/zzverif/h1x"
 	"github.com/saucelabs/forwarder/internal/zzverif/httpwire"
@@ -45,6 +46,7 @@ type exchange struct {
 	sse      bool
 	seg      int
 	eol           string // line ending of the events of an event stream: LF, CRLF or CR (the blank line that ends an event is two of them)
+	paced         bool   // (round 9) the origin emits its events 40 s apart; the proxy is configured with a 30 s limit for READING REQUESTS (HTTPServerConfig.ReadTimeout, library configuration), which says nothing about how long a response may take
 	uploadPending bool   // the request is a POST of which only half the body has been sent when the origin starts to answer
 	tail     int // octets that arrive in the same segment after the request: 0 none, 1 a stray CRLF, 2 the first octets of a further request that is never completed
 	rules    []string // configured --response-header rules
@@ -463,6 +465,9 @@ func scenario(x *explore.X, incremental bool) {
 			x.Outcome("inadmissible")
 			return
 		}
+		if exs[0].paced {
+			opts.Tweak = func(cfg *forwarder.HTTPProxyConfig, _ *forwarder.HTTPTransportConfig) { cfg.ReadTimeout = 30 * time.Second }
+		}
 	} else {
 		n := 1 + x.Choose("exchanges-1", 3)
 		for i := 0; i < n; i++ {
@@ -626,6 +631,9 @@ func chooseIncremental(x *explore.X) exchange {
 	if x.ChooseFree("origin-answers-while-the-request-body-is-still-being-sent", 2) == 1 {
 		e.method, e.uploadPending = "POST", true
 	}
+	if !e.uploadPending && x.ChooseFree("events-40s-apart-with-a-30s-request-read-timeout", 2) == 1 {
+		e.paced = true
+	}
 	return e
 }
 
@@ -640,6 +648,9 @@ func incrementalDelivery(x *explore.X, e exchange, oc, cl world.Stream, handlerM
 	var sent []byte
 	t0 := time.Now()
 	for k := 0; k < e.seg; k++ {
+		if e.paced {
+			world.Settle(40 * time.Second)
+		}
 		ev := []byte(fmt.Sprintf("data: %d ", k))
 		ev = append(ev, h1x.Pattern(e.size, byte(k))...)
 		ev = append(ev, e.eol+e.eol...)
@@ -662,7 +673,7 @@ func incrementalDelivery(x *explore.X, e exchange, oc, cl world.Stream, handlerM
 			return nil, false
 		}
 	}
-	if d := time.Since(t0); d != 0 {
+	if d := time.Since(t0); d != 0 && !e.paced {
 		x.Failf("incremental-delivery/time", "virtual time advanced by %v while events were relayed", d)
 	}
 	if e.uploadPending {
